@@ -43,8 +43,9 @@ def base_copy(commit):
     return root
 
 
-PORT_BASES = ['aad6aa0', 'd877b03']   # trees the stored patches were written
-                                      # against (rounds 4-5 / rounds 2-3)
+# trees the stored patches were written against (round 9 / round 6 /
+# rounds 4-5 / rounds 2-3)
+PORT_BASES = ['23c04b6', '9f3f77f', 'aad6aa0', 'd877b03']
 
 
 def _git(root, *args, **kw):
